@@ -81,6 +81,28 @@ theorem C28_ok_go (ls : List Int) (hv : ValidLevels goLevels ls) :
 example : okLoop goLevels.err [3, 4] = true ∧ okLoop goLevels.err [3, 2] = false ∧
     okLoop goLevels.err [1] = false := by decide
 
+/-! ### a report shared by several Parse calls -/
+
+/-- What a call reports does not depend on what the report held before: with the `prior` offset
+    the result is the one a fresh report gives, whatever the earlier diagnostics were. -/
+theorem ok_ignores_prior (E : Int) (prior new : List Int) :
+    okShared E prior new = okLoop E new := by
+  simp [okShared]
+
+/-- … so the `ok` clause holds for every call on a shared report. -/
+theorem C28_ok_shared (L : Levels) (hL : L.ice < L.err ∧ L.err < L.warn ∧ L.warn < L.remark)
+    (prior new : List Int) (hv : ValidLevels L new) :
+    okShared L.err prior new = true ↔ noErrors L new = true := by
+  rw [ok_ignores_prior]; exact C28_ok L hL new hv
+
+/-- Looking at the whole report instead is wrong as soon as an earlier call left an error: a clean
+    file is then reported as failed (what the shared-report observation of the xparse engine
+    detects). -/
+theorem okWholeReport_refuted :
+    ∃ prior new, ValidLevels goLevels new ∧ noErrors goLevels new = true ∧
+      okWholeReport goLevels.err prior new = false :=
+  ⟨[2], [], ⟨fun l hl => absurd hl (List.not_mem_nil), by decide, by decide⟩⟩
+
 /-! ### the loop before de66908c (documentation) -/
 
 /-- the `ok` clause for the loop as it was (`d.Level() >= report.Error`) -/
@@ -171,3 +193,5 @@ end PCV.Props.C28
 #print axioms PCV.Props.C28.fuse_never_panics
 #print axioms PCV.Props.C28.iteration_never_panics
 #print axioms PCV.Props.C28.strContentPrefix_panics
+#print axioms PCV.Props.C28.C28_ok_shared
+#print axioms PCV.Props.C28.okWholeReport_refuted
